@@ -1,6 +1,7 @@
 package payload
 
 import (
+	"bytes"
 	"encoding/json"
 	"fmt"
 	"io"
@@ -419,15 +420,35 @@ func NewDecoder(n int, sep string, r io.Reader) (sts.PayloadDecoder, error) {
 	}
 	pr, pw := io.Pipe()
 	go func() {
+		var err error
 		if n > 0 {
-			_, _ = io.CopyN(pw, r, int64(n))
+			_, err = io.CopyN(pw, r, int64(n))
 		} else {
 			// When no length provided, assume the meta is the entire payload
-			_, _ = io.Copy(pw, r)
+			_, err = io.Copy(pw, r)
 		}
+		// Always close the pipe so the decoder sees the end of the metadata
+		// (or the error) instead of blocking forever on a short stream
+		pw.CloseWithError(err)
 	}()
 	jr := json.NewDecoder(pr)
 	err = jr.Decode(&binReader.meta)
+	if err == nil {
+		// The metadata must account for the whole declared length; otherwise
+		// the part boundaries that follow would be off
+		var rest []byte
+		rest, err = io.ReadAll(io.MultiReader(jr.Buffered(), pr))
+		if err == nil && len(bytes.TrimSpace(rest)) > 0 {
+			err = fmt.Errorf(
+				"payload metadata length mismatch: %d unexpected byte(s)",
+				len(rest))
+		}
+	}
+	if err != nil {
+		// Release the copier in case it is still writing
+		pr.CloseWithError(err)
+		return binReader, err
+	}
 	if sep != "" {
 		for _, part := range binReader.meta {
 			part.Name = filepath.Join(strings.Split(part.Name, sep)...)
